@@ -62,7 +62,7 @@ def run(ctx, col: Collector):
     state: Dict[str, object] = {}
 
     def setup():
-        state['ti'] = TemplateIndex(idx)
+        state['ti'] = TemplateIndex(idx, innermost_context=True)
         state['envs'] = flows.build_envs(ctx, ('pydbml.renderer.',))
         state['rc'] = flows.reader_classes(ctx)
         state['pairs'] = flows.pair_classes(ctx)
